@@ -338,7 +338,7 @@ def run_check(pid: str, tier: str, seed: int, replay: str | None = None) -> int:
         "inconclusive": inconclusive,
         "repo": repo_path(),
     }
-    if not replay:
+    if not replay and repo_path() == "/repo" and not os.environ.get("VERIF_NO_EVIDENCE"):
         ev = {
             "property_id": pid, "tier": tier, "seed": seed,
             "level": getattr(mod, "LEVEL", "exploration"),
